@@ -191,9 +191,17 @@ theorem handoff_outcome (e : Int) (r : TaskRow) (o : Cpl) :
         | _ => rfl
       simp [hn, this, ho]
 
-/-- the dispatched message names exactly the task id and counter that were read -/
-theorem message_names_task (url : String) (tk : Task) :
-    (url ++ "/tasks/claim/" ++ tk.id ++ "/" ++ toString tk.counter) = url ++ "/tasks/claim/" ++ tk.id ++ "/" ++ toString tk.counter := rfl
+/-- the dispatched message names exactly the task that was read: its id, its counter, and claim / complete /
+    heartbeat links for that id and counter under the configured URL; a notification carries the promise that was read -/
+theorem message_names_task (env : Env) (e : Int) (r : TaskRow) (pr : Res) :
+    let m := senderReqOf env e r pr
+    m.task.id = r.id ∧ m.task.counter = r.counter ∧ m.task.recv = r.recv ∧ m.task.mesg = r.mesg ∧
+    m.claimHref = env.cfg.url ++ "/tasks/claim/" ++ r.id ++ "/" ++ toString r.counter ∧
+    m.completeHref = env.cfg.url ++ "/tasks/complete/" ++ r.id ++ "/" ++ toString r.counter ∧
+    m.heartbeatHref = env.cfg.url ++ "/tasks/heartbeat/" ++ r.id ++ "/" ++ toString r.counter ∧
+    (∀ row rest, pr = .promises (row :: rest) → m.promise = some row.toPromise) := by
+  refine ⟨rfl, rfl, rfl, rfl, rfl, rfl, rfl, ?_⟩
+  intro row rest h; subst h; rfl
 
 /-! ### non-vacuity -/
 example : (childStore { id := "p", param := {}, timeout := 1, idempotencyKey := none, tags := [], createdOn := 0 } none [] (fun _ => .retry)).subs.length = 1 := rfl
